@@ -38,16 +38,16 @@ EnumNames   == {"@e", "@f"}
 TagNames    == {"@g", "@h"}
 ServerNames == {"@s", "@t"}
 Verbs       == IF Rich THEN {"GET", "POST", "PUT", "PATCH", "DELETE"} ELSE {"GET", "POST"}
-Annots      == {"", "note one"}
+Annots      == {"", "note one", "collapsed text"}    \* the last one is written with runs of blanks and a tab
 Descs       == {"", "some text"}
-Codes       == IF Rich THEN {"200", "201", "404", "500"} ELSE {"200", "404"}
+Codes       == IF Rich THEN {"200", "201", "404", "409", "500", "599"} ELSE {"200", "404"}
 
 IsParam(seg) == seg \in {"{x}", "{y}", "{z}"}
 ParamName(seg) == CASE seg = "{x}" -> "x" [] seg = "{y}" -> "y" [] seg = "{z}" -> "z" [] OTHER -> ""
 
 \* paths are sequences of segments; rendered as "/" joined
 UrlPaths == IF Rich
-            THEN {<<"p">>, <<"p", "q">>, <<"r">>, <<"p", "{x}">>, <<"p", "{x}", "q">>, <<"r", "{y}", "{z}">>, <<"w">>}
+            THEN {<<"p">>, <<"p", "q">>, <<"r">>, <<"p", "{x}">>, <<"p", "{x}", "q">>, <<"r", "{y}">>, <<"r", "{y}", "{z}">>, <<"w">>}
             ELSE {<<"p">>, <<"p", "{x}">>, <<"r">>}
 
 RECURSIVE PathStr(_)
@@ -68,6 +68,8 @@ PropPool == {P("id", "int", ""), P("name", "str", ""), P("ra", "ref", "@a"), P("
             \cup (IF "nested" \in Features THEN {P("no", "nobj", "@b"), P("nc", "nobj", "@c")} ELSE {})
             \* "opt": "op": 1 // {optional: true}      "note": "nt": "v" // a note
             \cup (IF "rules" \in Features THEN {P("op", "opt", ""), P("nt", "note", "")} ELSE {})
+            \* "skey": a property whose key is a user type (shortcut key):   @kt: 1
+            \cup (IF "skey" \in Features THEN {P("@kt", "skey", "@kt")} ELSE {})
 SmallPropPool == {P("id", "int", ""), P("rb", "ref", "@b"), P("en", "enum", "@e")}
 
 PropSeqs == IF Rich
@@ -197,7 +199,7 @@ IdOf(e) == e.proto \o " " \o e.name \o " " \o PathStr(e.path)
 (* Well-formedness (what the language requires of a document)              *)
 
 BodyRefs(b) == (IF b.k \in {"ref", "arr"} THEN {b.n} ELSE {})
-               \cup {b.props[i].vn : i \in {j \in 1..Len(b.props) : b.props[j].vk \in {"ref", "arr", "nobj"}}}
+               \cup {b.props[i].vn : i \in {j \in 1..Len(b.props) : b.props[j].vk \in {"ref", "arr", "nobj", "skey"}}}
                \cup Range(b.allOf)
 BodyEnums(b) == {b.props[i].vn : i \in {j \in 1..Len(b.props) : b.props[j].vk = "enum"}}
 
@@ -295,6 +297,7 @@ PropView(p, inh) ==
     [] p.vk = "ref"  -> Child(p.key, "reference", p.vn, p.vn, inh)
     [] p.vk = "arr"  -> Child(p.key, "array", "array", p.vn, inh)      \* scalar = item type
     [] p.vk = "enum" -> Child(p.key, "string", "enum", "x", inh)
+    [] p.vk = "skey" -> Child(p.key, "number", "integer", "1", inh)
     [] p.vk = "opt"  -> [Child(p.key, "number", "integer", "1", inh) EXCEPT !.optional = TRUE]
     [] p.vk = "note" -> [Child(p.key, "string", "string", "v", inh) EXCEPT !.note = "a note"]
 
@@ -420,7 +423,8 @@ Complete(d) ==
   IF MissingTypes(d) # {} THEN
        LET n == CHOOSE x \in MissingTypes(d) : TRUE
        IN Complete(Append(d, [t |-> "type", name |-> n, annot |-> "",
-                              body |-> Body("obj", "", << P("f" \o n, "int", "") >>, << >>)]))
+                              body |-> IF n = "@kt" THEN Body("str", "", << >>, << >>)      \* a key type is a string type
+                                       ELSE Body("obj", "", << P("f" \o n, "int", "") >>, << >>)]))
   ELSE IF MissingEnums(d) # {} THEN
        LET n == CHOOSE x \in MissingEnums(d) : TRUE
        IN Complete(Append(d, [t |-> "enum", name |-> n, annot |-> ""]))
@@ -561,6 +565,7 @@ FreshBlocks ==
     [t |-> "enum", name |-> "@ze", annot |-> ""],
     [t |-> "tag", name |-> "@zg", annot |-> "Fresh tag", desc |-> ""],
     [t |-> "macro", name |-> "@zm", items |-> << [t |-> "type", name |-> "@zin", annot |-> "", body |-> Body("int", "", << >>, << >>)] >>],
+    [t |-> "macro", name |-> "@zn", items |-> << [t |-> "enum", name |-> "@zen", annot |-> ""] >>],
     [t |-> "method", m |-> Meth("GET", <<"zz", "{zp}">>, "", "fresh", << >>, "", NoSpec, FALSE,
                                  << Resp("200", "", BodySpec("param", Body("any", "", << >>, << >>)), FALSE) >>, << >>)],
     [t |-> "url", path |-> <<"zu">>, tags |-> << >>, pathdecl |-> << >>,
